@@ -262,6 +262,8 @@ impl InputList {
                         declares_entities |= d.as_ref().windows(8).any(|w| w == b"<!ENTITY");
                         None
                     }
+                    // (the CDATA end marker may not appear in character data)
+                    Event::Text(_) if ev_str.contains("]]>") => Some("]]>".to_string()),
                     Event::Text(_) => bad_reference(ev_str, declares_entities),
                     Event::Start(e) | Event::Empty(e) => e.attributes().flatten().find_map(|a| {
                         bad_reference(&String::from_utf8_lossy(&a.value), declares_entities)
@@ -270,7 +272,7 @@ impl InputList {
                 };
                 if let Some(r) = bad_ref {
                     return Err(SvgdxError::ParseError(format!(
-                        "XML error near line {src_line}: invalid reference '{r}'"
+                        "XML error near line {src_line}: invalid character data or reference '{r}'"
                     )));
                 }
                 if let Event::Start(e) | Event::Empty(e) = &ok_ev {
